@@ -237,6 +237,47 @@ CLAIMED = {
          'returning their argument are listed, not judged; descriptor values nested deeper than one container are treated as values.',
          'DESIGN.md section 7, C12'),
 }
+# properties part of whose source is translated to Gallina on every run (harness/pytrans.py): (what, theorems about the generated defs)
+TRANSLATED = {
+ 'C01': ('the matrix expressions of calc_rdm_euclidean / calc_rdm_correlation / calc_rdm_poisson (rdm/calc.py, from the condition '
+         'means to the values handed to _build_rdms)',
+         'the generated expressions equal, for every pair of conditions in row-major order, squared distance / P, 1 - Pearson r and '
+         'the Poisson-KL formula on prior-regularised rates (for every number of conditions and channels; euclidean also for every '
+         'numeric structure, incl. the executable one)'),
+ 'C05': ('the index arithmetic of sets_k_fold_pattern / sets_k_fold_rdm / sets_k_fold / sets_random and the group counts of '
+         'sets_of_k_* (inference/crossvalsets.py), default_k_pattern / default_k_rdm (util/inference_util.py)',
+         'the generated definitions equal the fold model for every group order, k and fold; every group is in exactly one test fold, '
+         'fold sizes differ by at most one, test and training groups are disjoint when k > 1; random splits are disjoint, complete '
+         'and of the requested size for every shuffle outcome'),
+ 'C06': ('_correct_1d and _dual_bootstrap (util/inference_util.py)',
+         'the generated dual-bootstrap combination never exceeds the two-factor variance (all inputs) and never falls below a '
+         'corrected single-factor variance that is itself below it; the generated correction is the n/(n-1) factor with the smaller n'),
+ 'C09': ('the index computations of bootstrap_sample / bootstrap_sample_rdm / bootstrap_sample_pattern (inference/bootstrap.py; the '
+         'translator accepts only np.random.randint(0, len(select), size=len(select)) as the source of the draws)',
+         'the returned index array is select[draws]: as many entries as distinct groups, each an existing group, a group occurring '
+         'exactly as often as it was drawn'),
+ 'C10': ('_get_n_from_length and _get_n_from_reduced_vectors (util/rdm_utils.py)',
+         'the generated functions recover n from n(n-1)/2 for every n >= 1 (>= 2 without the lower bound)'),
+ 'C14': ('the shrinkage logic of _covariance_eye and _covariance_diag (data/noise.py, from the sums to the returned matrix)',
+         'every entry of the generated results is a convex combination of the covariance entry with the target entry; the generated '
+         'Schaefer-Strimmer intensity is in [0,1] for every input, the Ledoit-Wolf intensity min(d2,b2)/d2 for d2 > 0, b2 >= 0'),
+}
+
+
+def with_translation(pid, tech, text, note):
+    if pid not in TRANSLATED:
+        return tech, text, note
+    what, thm = TRANSLATED[pid]
+    tech += ('; in addition, on every run a fail-closed Python-to-Gallina translator (harness/pytrans.py) regenerates from /repo\'s '
+             f'current source {what}, and Coq re-checks the tie proofs (coq/tie/Tie_{pid}.v: generated definitions = hand-written model) '
+             f'and the property statements about the generated definitions (coq/tie/TieProp_{pid}.v)')
+    text += f' Theorems about the definitions generated from the source on this run: {thm}.'
+    note += (' Translator subset and the Gallina meaning of every emitted NumPy/Python construct (coq/theories/PyLib.v) are trusted; a '
+             'construct outside the subset, a changed statement the slice relies on, or a failing tie proof makes the check report, '
+             'after searching the implementation for a failing input (harness/pytrans_search.py).')
+    return tech, text, note
+
+
 NA_REASON = 'check not built yet in this round (work in progress; see DESIGN.md section 7)'
 
 checks, na = [], []
@@ -244,6 +285,7 @@ for p in PROPS:
     pid = p['id']
     if pid in CLAIMED:
         tech, text, note, ref = CLAIMED[pid]
+        tech, text, note = with_translation(pid, tech, text, note)
         checks.append(dict(
             property_id=pid, quick_cmd=f'bin/check {pid} quick', thorough_cmd=f'bin/check {pid} thorough',
             evidence_file=f'/verif/evidence/{pid}.json', replay_cmd_template=f'bin/check {pid} --replay {{path}}',
@@ -261,7 +303,8 @@ m = dict(
     engines=[dict(name='coq-proof+correspondence', path='/verif/coq + /verif/harness',
                   serves_properties=[c['property_id'] for c in checks],
                   kind_free_text='Coq 8.16.1 theorems about a hand-written Gallina model; model tied to /repo by a '
-                  'correspondence check evaluated inside Coq (vm_compute) on every run')],
+                  'correspondence check evaluated inside Coq (vm_compute) on every run, and for C01, C05, C06, C09, C10, C14 additionally by '
+                  'definitions translated from the source on every run with kernel-checked tie proofs')],
     checks=checks, not_applicable=na,
     notes='fix: commits in /repo and known findings are listed in /verif/known_findings.json; see DESIGN.md.')
 json.dump(m, open(os.path.join(V, 'MANIFEST.json'), 'w'), indent=1)
